@@ -38,11 +38,17 @@ import (
 type readerB struct {
 	WriteTo bool  `json:"writeTo"`
 	Bufs    []int `json:"bufs"` // Read buffer sizes, cycled; at least one > 0
+	// Read-loop iterations (0-based) that are "expired probes": the goroutine itself sets the read
+	// deadline of its end to a past instant, calls Read, and clears the deadline again, all under the
+	// harness's deadline lock of that end (so no other goroutine can have re-armed it in between)
+	Probe []int `json:"probe,omitempty"`
 }
 
 type endB struct {
 	Writers [][]int   `json:"writers"` // per writer goroutine: sizes of its writes, in order
 	Readers []readerB `json:"readers"`
+	// per writer goroutine: indices of its writes that are expired probes (same protocol with the write deadline)
+	WProbe [][]int `json:"wprobe,omitempty"`
 }
 
 type chaosB struct {
@@ -83,6 +89,9 @@ type caseInfoB struct {
 	WriteToChunks      int
 	ConcurrentWriters  bool
 	ConcurrentReaders  bool
+
+	RProbes, RProbesPeerBusy int // expired Read probes; ... issued while a peer Write call was in flight
+	WProbes, WProbesPeerBusy int // expired Write probes; ... issued while a peer Read/WriteTo call was in flight
 }
 
 type stampSink struct {
@@ -157,6 +166,49 @@ func runPlanB(p planB) (viol string, ci caseInfoB) {
 			deadlineSet = deadlineSet || c.DL != dlZero
 		}
 	}
+	// Expired probes (calls STARTED after their deadline expired while the peer is ready). The
+	// assertion "returns (0, error), moves nothing" is only sound if nobody re-arms the deadline between
+	// the prober's Set*Deadline(past) and its call, so in plans with probes every Set*Deadline the
+	// harness issues on an end takes that end's lock for the side(s) it touches; the prober holds it over
+	// set + call + clear (the call cannot block: its deadline is expired).
+	hasProbes := false
+	for e := range p.Ends {
+		for _, wp := range p.Ends[e].WProbe {
+			hasProbes = hasProbes || len(wp) > 0
+		}
+		for _, r := range p.Ends[e].Readers {
+			hasProbes = hasProbes || (len(r.Probe) > 0 && !r.WriteTo)
+		}
+	}
+	deadlineSet = deadlineSet || hasProbes
+	var dlMu [2][2]sync.Mutex // [end][0 read side, 1 write side]
+	lockDL := func(e int, rd, wr bool) func() {
+		if !hasProbes {
+			return func() {}
+		}
+		if rd {
+			dlMu[e][0].Lock()
+		}
+		if wr {
+			dlMu[e][1].Lock()
+		}
+		return func() {
+			if wr {
+				dlMu[e][1].Unlock()
+			}
+			if rd {
+				dlMu[e][0].Unlock()
+			}
+		}
+	}
+	var writersIn, readersIn [2]atomic.Int64 // per direction: Write / Read+WriteTo calls currently in flight
+	var rProbes, rProbesBusy, wProbes, wProbesBusy atomic.Int64
+	pastOf := func(k int) time.Time {
+		if k%2 == 0 {
+			return time.Unix(1, 0)
+		}
+		return time.Now().Add(-time.Nanosecond)
+	}
 	var closeStamp [2]atomic.Int64 // stamp at which direction e (written by end e) was first closed
 	markClosed := func(d int) {
 		closeStamp[d].CompareAndSwap(0, clock.Add(1))
@@ -184,6 +236,7 @@ func runPlanB(p planB) (viol string, ci caseInfoB) {
 			case dlFuture:
 				tm = time.Now().Add(time.Duration(c.Dus) * time.Microsecond)
 			}
+			unlock := lockDL(c.End, c.Op != opSetWD, c.Op != opSetRD)
 			switch c.Op {
 			case opSetRD:
 				e.SetReadDeadline(tm)
@@ -192,6 +245,7 @@ func runPlanB(p planB) (viol string, ci caseInfoB) {
 			default:
 				e.SetDeadline(tm)
 			}
+			unlock()
 		}
 	}
 	onOp := func() {
@@ -224,6 +278,12 @@ func runPlanB(p planB) (viol string, ci caseInfoB) {
 				recs[s] = &wrecB{g: g, s: s, size: sz}
 			}
 			writes[e] = append(writes[e], recs...)
+			probeW := map[int]bool{}
+			if g < len(ep.WProbe) {
+				for _, s := range ep.WProbe[g] {
+					probeW[s] = true
+				}
+			}
 			wg.Go(func() {
 				defer func() {
 					if left.Add(-1) == 0 {
@@ -237,9 +297,29 @@ func runPlanB(p planB) (viol string, ci caseInfoB) {
 					for i := range buf {
 						buf[i] = tag
 					}
-					r.before = clock.Add(1)
-					r.n, r.err = c.Write(buf)
-					r.after = clock.Add(1)
+					if probeW[r.s] {
+						unlock := lockDL(e, false, true)
+						c.SetWriteDeadline(pastOf(r.s))
+						busy := readersIn[e].Load() > 0
+						r.before = clock.Add(1)
+						r.n, r.err = c.Write(buf)
+						r.after = clock.Add(1)
+						c.SetWriteDeadline(time.Time{})
+						unlock()
+						wProbes.Add(1)
+						if busy {
+							wProbesBusy.Add(1)
+						}
+						if r.n != 0 || r.err == nil {
+							fail(fmt.Sprintf("SIG=C15/B/expired-write-transferred end %d writer %d write %d (len %d): the goroutine set its write deadline to a past instant and then called Write, which returned n=%d err=%v instead of (0, timeout)", e, r.g, r.s, r.size, r.n, r.err))
+						}
+					} else {
+						writersIn[e].Add(1)
+						r.before = clock.Add(1)
+						r.n, r.err = c.Write(buf)
+						r.after = clock.Add(1)
+						writersIn[e].Add(-1)
+					}
 					switch classify(r.err) {
 					case eNil:
 					case eClosed:
@@ -247,7 +327,11 @@ func runPlanB(p planB) (viol string, ci caseInfoB) {
 					case eTimeout:
 						timeouts.Add(1)
 						wTimeouts[e].Add(1)
-						c.SetWriteDeadline(time.Time{})
+						if !probeW[r.s] {
+							unlock := lockDL(e, false, true)
+							c.SetWriteDeadline(time.Time{})
+							unlock()
+						}
 					default:
 						fail(fmt.Sprintf("SIG=C15/B/write-error-class end %d writer %d write %d (len %d) returned n=%d err=%v", e, r.g, r.s, r.size, r.n, r.err))
 					}
@@ -263,7 +347,9 @@ func runPlanB(p planB) (viol string, ci caseInfoB) {
 					sk := &stampSink{clock: &clock, reader: ri, onOp: onOp}
 					for {
 						sk.last = clock.Add(1)
+						readersIn[d].Add(1)
 						_, err := c.WriteTo(sk)
+						readersIn[d].Add(-1)
 						cl := classify(err)
 						if cl == eClosed {
 							rClosed[d].Add(1)
@@ -271,7 +357,9 @@ func runPlanB(p planB) (viol string, ci caseInfoB) {
 						if cl == eTimeout {
 							timeouts.Add(1)
 							rTimeouts[d].Add(1)
+							unlock := lockDL(e, true, false)
 							c.SetReadDeadline(time.Time{})
+							unlock()
 							onOp()
 							continue
 						}
@@ -294,11 +382,38 @@ func runPlanB(p planB) (viol string, ci caseInfoB) {
 				buf := make([]byte, maxb)
 				var mine []chunkB
 				defer func() { chunks[d][ri] = mine }()
+				probeR := map[int]bool{}
+				for _, i := range rp.Probe {
+					probeR[i] = true
+				}
 				for i := 0; ; i++ {
 					bb := buf[:rp.Bufs[i%len(rp.Bufs)]]
-					before := clock.Add(1)
-					n, err := c.Read(bb)
-					after := clock.Add(1)
+					var before, after int64
+					var n int
+					var err error
+					if probeR[i] {
+						unlock := lockDL(e, true, false)
+						c.SetReadDeadline(pastOf(i))
+						busy := writersIn[d].Load() > 0
+						before = clock.Add(1)
+						n, err = c.Read(bb)
+						after = clock.Add(1)
+						c.SetReadDeadline(time.Time{})
+						unlock()
+						rProbes.Add(1)
+						if busy {
+							rProbesBusy.Add(1)
+						}
+						if n != 0 || err == nil {
+							fail(fmt.Sprintf("SIG=C15/B/expired-read-transferred end %d reader %d iteration %d: the goroutine set its read deadline to a past instant and then called Read(len %d), which returned n=%d err=%v instead of (0, timeout)", e, ri, i, len(bb), n, err))
+						}
+					} else {
+						readersIn[d].Add(1)
+						before = clock.Add(1)
+						n, err = c.Read(bb)
+						after = clock.Add(1)
+						readersIn[d].Add(-1)
+					}
 					if n < 0 || n > len(bb) {
 						fail(fmt.Sprintf("SIG=C15/B/read-n end %d reader %d Read(len %d) returned n=%d err=%v", e, ri, len(bb), n, err))
 						return
@@ -318,7 +433,11 @@ func runPlanB(p planB) (viol string, ci caseInfoB) {
 					case eTimeout:
 						timeouts.Add(1)
 						rTimeouts[d].Add(1)
-						c.SetReadDeadline(time.Time{})
+						if !probeR[i] {
+							unlock := lockDL(e, true, false)
+							c.SetReadDeadline(time.Time{})
+							unlock()
+						}
 					case eEOF, eClosed:
 						if classify(err) == eClosed {
 							rClosed[d].Add(1)
@@ -374,6 +493,8 @@ func runPlanB(p planB) (viol string, ci caseInfoB) {
 	}
 
 	ci.Timeouts = int(timeouts.Load())
+	ci.RProbes, ci.RProbesPeerBusy = int(rProbes.Load()), int(rProbesBusy.Load())
+	ci.WProbes, ci.WProbesPeerBusy = int(wProbes.Load()), int(wProbesBusy.Load())
 	if ci.Timeouts > 0 && !deadlineSet {
 		return fmt.Sprintf("SIG=C15/B/timeout-without-deadline %d calls timed out but no deadline was ever set; plan=%s", ci.Timeouts, jsonOf(p)), ci
 	}
@@ -399,6 +520,12 @@ func runPlanB(p planB) (viol string, ci caseInfoB) {
 				wdl = wdl || (c.End == d && c.DL != dlZero)
 				rdl = rdl || (c.End == 1-d && c.DL != dlZero)
 			}
+		}
+		for _, wp := range p.Ends[d].WProbe { // a prober's past deadline also hits the other writers of its end
+			wdl = wdl || len(wp) > 0
+		}
+		for _, r := range p.Ends[1-d].Readers {
+			rdl = rdl || (len(r.Probe) > 0 && !r.WriteTo)
 		}
 		switch {
 		case wClosed[d].Load() > 0 && !closeW:
@@ -601,6 +728,13 @@ func drawPlanB(rt *rapid.T) planB {
 			}
 			totalOps += 2 * k
 			p.Ends[e].Writers = append(p.Ends[e].Writers, sizes)
+			var wp []int
+			if rapid.IntRange(0, 2).Draw(rt, "wprobe") == 0 {
+				for range rapid.IntRange(1, 2).Draw(rt, "nwprobe") {
+					wp = append(wp, rapid.IntRange(0, k-1).Draw(rt, "wpi"))
+				}
+			}
+			p.Ends[e].WProbe = append(p.Ends[e].WProbe, wp)
 		}
 		for range nr {
 			var r readerB
@@ -621,6 +755,11 @@ func drawPlanB(rt *rapid.T) planB {
 				}
 				if !pos {
 					r.Bufs[0] = 1
+				}
+				if rapid.IntRange(0, 2).Draw(rt, "rprobe") == 0 {
+					for range rapid.IntRange(1, 3).Draw(rt, "nrprobe") {
+						r.Probe = append(r.Probe, rapid.IntRange(0, 20).Draw(rt, "rpi"))
+					}
 				}
 			}
 			p.Ends[e].Readers = append(p.Ends[e].Readers, r)
@@ -649,7 +788,9 @@ var recB = ev.New("C15", "free-running",
 		"timed-out callers clear their deadline and go on; the last writer of an end calls CloseWrite; then both ends are closed and probed. "+
 		"Oracle: attribution invariants on the received chunks vs. the n each Write reported (see modeb_test.go). "+
 		"Non-trivial: some end had >= 2 concurrent writers and one of their writes was consumed in >= 2 chunks; distinct key = goroutine shape + chaos ops + observed classes").
-	Require("multi-writer-partial", "timeout-seen", "write-failed-partially-consumed", "half-close-reverse-used", "writeto-reader", "concurrent-readers", "chaos-close")
+	Require("multi-writer-partial", "timeout-seen", "write-failed-partially-consumed", "half-close-reverse-used", "writeto-reader", "concurrent-readers", "chaos-close",
+		// round 6
+		"expired-read-probe", "expired-read-probe-while-peer-write-in-flight", "expired-write-probe", "expired-write-probe-while-peer-reader-in-flight")
 
 func checkPlanB(rt *rapid.T, p planB) {
 	done := journal("c15b", replayDoc{Mode: "B", B: &p})
@@ -677,6 +818,10 @@ func checkPlanB(rt *rapid.T, p planB) {
 	add(ci.HalfReverse, "half-close-reverse-used")
 	add(ci.ConcurrentReaders, "concurrent-readers")
 	add(ci.ConcurrentWriters, "concurrent-writers")
+	add(ci.RProbes > 0, "expired-read-probe")
+	add(ci.RProbesPeerBusy > 0, "expired-read-probe-while-peer-write-in-flight")
+	add(ci.WProbes > 0, "expired-write-probe")
+	add(ci.WProbesPeerBusy > 0, "expired-write-probe-while-peer-reader-in-flight")
 	key := ""
 	chaosClose := false
 	for e := range 2 {
@@ -698,6 +843,10 @@ func checkPlanB(rt *rapid.T, p planB) {
 	recB.Case(key, ci.MultiWriterPartial, l...)
 	recB.Label("chunks", int64(ci.Chunks))
 	recB.Label("bytes", int64(ci.Bytes))
+	recB.Label("expired-read-probes", int64(ci.RProbes))
+	recB.Label("expired-read-probes-peer-busy", int64(ci.RProbesPeerBusy))
+	recB.Label("expired-write-probes", int64(ci.WProbes))
+	recB.Label("expired-write-probes-peer-busy", int64(ci.WProbesPeerBusy))
 	if ci.MultiWriterPartial {
 		recB.Sample(map[string]any{"plan": p, "chunks": ci.Chunks, "timeouts": ci.Timeouts})
 	}
